@@ -134,3 +134,53 @@ Proof.
   destruct (Hall (t_id t)) as (_ & Hx). destruct (Hx false) as (Hti & _ & Hdl & Hs & Hu & _).
   pose proof (ti_cnt _ _ _ Hti) as Hc. unfold cnt in Hc. rewrite nrm_count in Hc. rewrite Hc, Hu, skipn_length. lia.
 Qed.
+
+(* ------------------------------------------------------------------ reads keep every persisted position good *)
+Lemma PG_set_hyd c s t ts' T x0 :
+  0 < c_hdr c -> PG c s -> T = nrm x0 (get_ts s t) ->
+  r_hydrated (reader_of ts') = true -> TInv c (a_next (s_alloc s)) ts' -> CNE ts' ->
+  chain_of ts' = chain_of T -> ts_writer ts' = ts_writer T ->
+  ((ts_index ts' = ts_index T /\ unread c ts' = unread c T) \/ (exists p, ts_index ts' = Some p /\ PosIs ts' p)) ->
+  PG c (set_ts s t ts').
+Proof.
+  intros Hh Hpg HT Hhy Hinv Hcne Hch Hw Hidx t0 x p Hp.
+  destruct (N.eq_dec t0 t) as [->|Hne]; [|rewrite get_set_other in * by exact Hne; now apply Hpg].
+  rewrite get_set_same in *. rewrite (nrm_reader_hydrated x ts' Hhy).
+  destruct Hidx as [(Hi & Hun)|(p' & Hi & Hpos)].
+  - rewrite Hi, HT, nrm_index in Hp. pose proof (Hpg t x0 p Hp) as Hg. rewrite <- HT in Hg.
+    eapply PGood_ext; eauto.
+  - rewrite Hi in Hp. inversion Hp; subst p'. eapply posis_PGood; eauto.
+Qed.
+
+Lemma PG_read c be s g B Bb t ck : cfg_ok c -> G c s g B Bb -> PG c s ->
+  PG c (fst (step (env_of c Strict be) s (ORead t ck))).
+Proof.
+  intros Hc HG Hpg. pose proof HG as (Hn & Hd & Hb & Hl & Hall). pose proof Hc as (Hh & _).
+  cbn [step env_of v_cfg v_mode].
+  destruct (Hall (t_id t)) as (Hsc & Hx). destruct (Hx false) as (Hti & Hp3 & _).
+  set (ts := get_ts s (t_id t)) in *. set (T := nrm false ts) in *.
+  set (sn := set_ts s (t_id t) T).
+  assert (Hgn : get_ts sn (t_id t) = T) by apply get_set_same.
+  pose proof (read_next_spec_idx c sn t ck (a_next (s_alloc s)) Hc) as Hspec. rewrite Hgn in Hspec. specialize (Hspec Hti).
+  cbn zeta in Hspec. destruct Hspec as (ts' & res & Hr & Hinv' & Hst' & Hw' & Hch' & Hhy' & Hcase & Hidx).
+  apply read_next_nrm in Hr. rewrite Hr. cbn [fst].
+  eapply (PG_set_hyd c s (t_id t) ts' T false); eauto. unfold CNE. rewrite Hch'. exact (proj1 Hp3).
+Qed.
+
+Lemma PG_batch_read c be s g B Bb t maxb ck start : cfg_ok c -> G c s g B Bb -> PG c s ->
+  PG c (fst (step (env_of c Strict be) s (OBatchRead t maxb ck start))).
+Proof.
+  intros Hc HG Hpg. pose proof HG as (Hn & Hd & Hb & Hl & Hall). pose proof Hc as (Hh & _).
+  cbn [step env_of v_cfg v_mode].
+  destruct start as [st0|].
+  { destruct (batch_read_stateless c Strict s t maxb ck st0) as (os & Hr). rewrite Hr. cbn [fst].
+    intros t0 x p. destruct (N.eq_dec t0 (t_id t)) as [->|Hne]; [rewrite get_set_same|rewrite get_set_other by exact Hne]; apply Hpg. }
+  destruct (Hall (t_id t)) as (Hsc & Hx). destruct (Hx true) as (Hti & Hp3 & _).
+  set (ts := get_ts s (t_id t)) in *. set (T := nrm true ts) in *.
+  set (sn := set_ts s (t_id t) T).
+  assert (Hgn : get_ts sn (t_id t) = T) by apply get_set_same.
+  pose proof (batch_read_spec_idx c sn t maxb ck (a_next (s_alloc s)) Hc) as Hspec. rewrite Hgn in Hspec. specialize (Hspec Hti).
+  cbn zeta in Hspec. destruct Hspec as (ts' & k & Hr & Hinv' & Hst' & Hw' & Hch' & Hhy' & Hk & Hk1 & Hun' & Hidx).
+  apply batch_read_nrm in Hr. rewrite Hr. cbn [fst].
+  eapply (PG_set_hyd c s (t_id t) ts' T true); eauto. unfold CNE. rewrite Hch'. exact (proj1 Hp3).
+Qed.
